@@ -187,6 +187,24 @@ Theorem C18_credit_monitor : forall t o t', Inv t -> step t o = Some t' -> pol_c
 Proof. exact pol_credit_holds. Qed.
 Print Assumptions C18_credit_monitor.
 
+(* (7) activeReq = the requests started and not yet answered (aids = its ids): an answer removes its id - also when
+   the node was removed from the table meanwhile; a revalidation run only adds ids of the two lists; no other
+   operation changes the set.  Hence an entry without a request in flight is never excluded by get. *)
+Theorem C18_active_is_in_flight : forall t o t', step t o = Some t' ->
+  match o with
+  | RevalResp id _ _ _ => aids (gl t') = filter (fun x => negb (x =? id)) (aids (gl t))
+  | RevalRun _ _ _ =>
+      (forall x, In x (aids (gl t)) -> In x (aids (gl t'))) /\
+      (forall x, In x (aids (gl t')) -> In x (aids (gl t)) \/ In x (fast (gl t) ++ slow (gl t)))
+  | _ => aids (gl t') = aids (gl t)
+  end.
+Proof. exact active_is_in_flight. Qed.
+Print Assumptions C18_active_is_in_flight.
+
+Theorem C18_active_monitor : forall t o t', step t o = Some t' -> pol_active_b t o t' = true.
+Proof. exact pol_active_holds. Qed.
+Print Assumptions C18_active_monitor.
+
 (* the premises are satisfiable: a full bucket is reached, a newcomer only becomes a replacement, the executable
    policy predicates hold on that step, and a later dead answer promotes the replacement *)
 Example C18_nonvacuous :
